@@ -61,6 +61,9 @@ pub struct RunStats {
     pub sim_time_ns: u64,
     /// Extra distinct-state hashes reached inside the run (e.g. crash states).
     pub state_hashes: Vec<u64>,
+    /// Number of evaluated cases inside this run when a run evaluates many (0 = count as one).
+    #[serde(default)]
+    pub evals: u64,
 }
 
 impl RunStats {
@@ -105,6 +108,14 @@ pub trait Check: Sync {
     fn extra_coverage(&self, _counters: &BTreeMap<String, u64>) -> Value {
         json!({})
     }
+    /// When true, `distinct_nontrivial` is the number of distinct state hashes (the check only
+    /// reports non-trivial states there) instead of distinct non-trivial run hashes.
+    fn distinct_from_states(&self) -> bool {
+        false
+    }
+    fn exhaustive(&self) -> bool {
+        false
+    }
 }
 
 #[derive(Clone, Debug, Serialize, Deserialize)]
@@ -118,6 +129,8 @@ pub struct FoundViolation {
 #[derive(Default, Serialize, Deserialize)]
 pub struct WorkerResult {
     pub runs: u64,
+    #[serde(default)]
+    pub evals: u64,
     pub counters: BTreeMap<String, u64>,
     pub case_hashes_nontrivial: Vec<u64>,
     pub case_hashes_all: u64,
@@ -179,6 +192,7 @@ pub fn worker(check: &dyn Check, tier: Tier, seed: u64, slot: u32, of: u32, runs
         let scenario = check.generate(run_seed, tier);
         let (outcome, stats) = check.execute(&scenario, &env);
         res.runs += 1;
+        res.evals += stats.evals.max(1);
         for (k, v) in &stats.counters {
             *res.counters.entry(k.clone()).or_insert(0) += v;
         }
@@ -362,6 +376,7 @@ pub fn run_check(check: &dyn Check, args: &CheckArgs) -> i32 {
             }
         };
         merged.runs += r.runs;
+        merged.evals += r.evals;
         for (k, v) in r.counters {
             *merged.counters.entry(k).or_insert(0) += v;
         }
@@ -473,11 +488,12 @@ pub fn run_check(check: &dyn Check, args: &CheckArgs) -> i32 {
     // Evidence.
     let wall = start.elapsed().as_secs_f64();
     let mut coverage = json!({
-        "evaluations": merged.runs,
-        "distinct_nontrivial": nontrivial.len(),
+        "evaluations": merged.evals.max(merged.runs),
+        "runs": merged.runs,
+        "distinct_nontrivial": if check.distinct_from_states() { states.len() } else { nontrivial.len() },
         "rule": check.rule(),
         "samples": merged.samples,
-        "exhaustive": false,
+        "exhaustive": check.exhaustive(),
         "runs_per_hour": if wall > 0.0 { (merged.runs as f64 / wall * 3600.0) as u64 } else { 0 },
         "simulated_time_s": merged.sim_time_ns as f64 / 1e9,
         "distinct_states": states.len(),
